@@ -350,14 +350,18 @@ def State.addRes (s : State) (id : String) (len : Nat) : Resp × State :=
     if (getLive s.res h).map (·.len) == some len then (.ok (toString h), s) else (.err, s)
   | none => (.ok (toString s.res.length), { s with res := s.res ++ [some ⟨id, len, []⟩] })
 
-/-- `add_dataset` with an empty builder -/
-def State.addSet (s : State) (id : String) : Resp × State :=
+/-- keys a builder declares, each name once (later repetitions resolve to the first) -/
+def declKeys (ks : List String) : List (Option String) := (ks.eraseDups).map some
+
+/-- `add_dataset` with a builder that declares keys and no data; an existing set with the same id is
+accepted (and nothing inserted) only when it is identical -/
+def State.addSet (s : State) (id : String) (ks : List String := []) : Resp × State :=
   match s.resolveSet id with
   | some h =>
     match getLive s.sets h with
-    | some m => if m.keys.isEmpty && m.data.isEmpty then (.ok (toString h), s) else (.err, s)
+    | some m => if m.keys == declKeys ks && m.data.isEmpty then (.ok (toString h), s) else (.err, s)
     | none => (.err, s)
-  | none => (.ok (toString s.sets.length), { s with sets := s.sets ++ [some ⟨id, [], []⟩] })
+  | none => (.ok (toString s.sets.length), { s with sets := s.sets ++ [some ⟨id, declKeys ks, []⟩] })
 
 def State.addData (s : State) (d : DataReq) : Resp × State :=
   match s.insertData d with
